@@ -89,7 +89,7 @@ func RunProxy(c *Ctx) error {
 		da   coreda.DA
 	}{{"direct", direct}, {"proxy", &cl.DA}}
 
-	faults := []string{"none", "timeout", "mempool", "toobig", "seqnum", "deadline", "err", "cancel", "acklost"}
+	faults := []string{"none", "prefix1", "timeout", "mempool", "toobig", "seqnum", "deadline", "err", "cancel", "acklost"}
 	seq := 0
 	for n := 0; n <= 4; n++ {
 		for fit := 0; fit <= n; fit++ {
@@ -124,6 +124,9 @@ func RunProxy(c *Ctx) error {
 						da.SubmitScript = nil
 						if fault != "none" && n > 0 && fit > 0 {
 							da.SubmitScript = []string{fault}
+							if fault == "prefix1" {
+								da.SubmitScript = []string{"prefix:1"}
+							}
 						}
 						before := len(da.Accepted)
 						s0 := da.Submits
